@@ -108,6 +108,43 @@ Proof.
 Qed.
 Print Assumptions C13_of_length_count.
 
+(* len(DFA.of_length(min_length=lo, max_length=hi)) = sum of |alphabet|^k for k = lo..hi (0 when hi < lo); never
+   InfiniteLanguageException.  C15_of_length_lang / _valid, then C13_cardinality_exact + C13_words_below_listing *)
+Theorem C13_of_length_cardinality : forall syms lo hi, NoDup syms ->
+  cardinality (of_length_m syms lo (Some hi) None) =
+  Ok (N.of_nat (list_sum (map (fun k => length syms ^ k) (seq lo (S hi - lo))))).
+Proof.
+  intros syms lo hi Hnd. set (m := of_length_m syms lo (Some hi) None).
+  assert (Hv : valid_dfa m = true) by (apply C15_of_length_valid; exact Hnd).
+  assert (Hacc : forall w, dfa_acc m w = true <-> Forall (fun a => In a syms) w /\ lo <= length w <= hi).
+  { intro w. pose proof (C15_of_length_lang syms lo (Some hi) None w) as HL.
+    unfold L_dfa, promised, flagP, length_in_range, word_over in HL. fold m in HL. simpl Construct.counted_set in HL.
+    rewrite HL. split.
+    - intros [Ho Hr]. rewrite (counted_over syms w Ho) in Hr. split; [exact Ho|exact Hr].
+    - intros [Ho Hr]. rewrite (counted_over syms w Ho). split; [exact Ho|exact Hr]. }
+  assert (Hlen : length (set_of syms) = length syms).
+  { apply nodup_same_members_length; [apply ssorted_NoDup; apply set_of_sorted|exact Hnd|intro x; apply set_of_In]. }
+  pose proof (C13_cardinality_exact m Hv) as H. destruct (cardinality m) as [c|e].
+  - destruct H as [L [HB Hc]]. rewrite Hc. do 2 f_equal.
+    destruct (C13_words_below_listing m L Hv) as [_ [HndW Hmem]].
+    set (W := flat_map (all_words (set_of syms)) (seq lo (S hi - lo))).
+    transitivity (length W).
+    + apply nodup_same_members_length; [exact HndW| |].
+      * apply NoDup_flat_map_disjoint; [apply seq_NoDup| |].
+        -- intros k _. apply all_words_NoDup. apply set_of_sorted.
+        -- intros x y z _ _ Hx Hy. apply all_words_In in Hx. apply all_words_In in Hy. lia.
+      * intro w. rewrite Hmem, Hacc. unfold W. rewrite in_flat_map. split.
+        -- intros [[Ho Hr] _]. exists (length w). split; [apply in_seq; lia|]. apply all_words_In. split; [reflexivity|].
+           rewrite Forall_forall in *. intros a Ha. apply set_of_In. apply Ho. exact Ha.
+        -- intros [k [Hk Hw]]. apply in_seq in Hk. apply all_words_In in Hw. destruct Hw as [Hl Ho].
+           assert (Ho' : Forall (fun a => In a syms) w).
+           { rewrite Forall_forall in *. intros a Ha. apply set_of_In. apply Ho. exact Ha. }
+           split; [split; [exact Ho'|lia]|]. apply HB. apply Hacc. split; [exact Ho'|lia].
+    + unfold W. rewrite flat_map_length_sum. f_equal. apply map_ext. intro k. rewrite all_words_length, Hlen. reflexivity.
+  - exfalso. destruct e; try exact H. destruct (H hi) as [w [Ha Hlt]]. apply Hacc in Ha. lia.
+Qed.
+Print Assumptions C13_of_length_cardinality.
+
 (* non-vacuity: the five words of the C15 example, complete and partial *)
 Example C13_example_finite_language :
   let lang := [[0; 1]; [0; 0; 1]; [1]; [1; 1]; []] in
@@ -122,5 +159,6 @@ Proof. vm_compute. repeat split. Qed.
 Example C13_example_of_length :
   let m := of_length_m [0; 1; 2] 1 (Some 3) None in
   map (fun k => cnt m k (d_init m)) [0; 1; 2; 3; 4] = [0; 3; 9; 27; 0]%N /\ cardinality m = Ok 39%N /\
+  cardinality (of_length_m [0; 1] 3 (Some 2) None) = Ok 0%N /\
   cnt (of_length_m [0; 1] 2 None None) 5 0 = 32%N.
 Proof. vm_compute. repeat split. Qed.
